@@ -90,13 +90,13 @@ IP_INVARIANTS = ['IPRefines', 'BoundsAdmit']
 TEXT_INVARIANTS = ['ReadRender']
 
 
-def run_spec(label, consts, simulate=None, invariants=None, depth=40):
+def run_spec(label, consts, simulate=None, invariants=None, depth=40, coverage=None):
     inv = list(invariants or LP_INVARIANTS)
     if consts.get('CheckIP'):
         inv = IP_INVARIANTS + inv
     if consts.get('CheckText'):
         inv = TEXT_INVARIANTS + inv
-    return dict(label=label, consts=consts, simulate=(simulate, depth) if simulate else None, invariants=inv,
+    return dict(label=label, consts=consts, simulate=(simulate, depth) if simulate else None, invariants=inv, coverage=coverage,
                 constraint='StopAfterReady' if consts.get('ExportMode') in ('checker', 'load') else None)
 
 
